@@ -1003,6 +1003,8 @@ def run(cx, rep):
     guarded_lookup_rule(cx, rep, "C04.9")
     # ---------------------------------------------------------------- C04.10
     nonempty_regex_rule(cx, rep, "C04.10")
+    # ---------------------------------------------------------------- C04.11
+    reference_chase_rule(cx, rep, "C04.11")
     rep.rule("C04.7", "an Anchor pairs a span with the file the span was read in (syntax and its file travel together)")
     anchor_colocation_rule(cx, rep, "C04.7")
 
@@ -1702,6 +1704,87 @@ def guarded_lookup_rule(cx, rep, rid):
     # no floor: a tree without such lookups (Option-propagating helpers instead) satisfies the rule; the seeded change
     # C04-l keeps the matcher alive in the thorough tier
     rep.ob(rid, "scan", True, sample={"must_succeed_lookups_found": n_sites, "functions_scanned": len(info)})
+
+
+# ---------------------------------------------------------------------------------------------------- C04.11
+def reference_chase_rule(cx, rep, rid):
+    """The recursion rule (C04.3) sees calls; a `while` / `loop` that follows references through a name -> definition
+    table is the same traversal without a call: `while let Ref(r) = &t.kind { t = table.get(r)..; }` never ends on
+    `type A = B; type B = A` - valid input for which the compiler must produce a diagnostic.  Decided for every loop
+    of beff-core that is not a `for`: if the body re-assigns a local X from a value that comes out of a map lookup
+    whose key derives from X (directly, or through a binding of a pattern matched on X), the loop is a reference
+    chase, and then it records where it has been - an `insert` into a set / map inside the loop - or counts fuel (a
+    compound assignment to a local that a condition of the loop reads)."""
+    F = cx.rs
+    rep.rule(rid, "a loop that follows references through a definition table records where it has been")
+    n_loops, n_chase = 0, 0
+    for g, t in sorted(F.hir.items()):
+        f = F.fns.get(g)
+        if f is None or "beff-core/src" not in (f.file or ""):
+            continue
+        for lp in walk(t["body"]):
+            if lp["k"] != "Loop" or lp.get("src") == "ForLoop" or any(m_ in ("Deserialize", "Serialize") for m_ in (lp.get("mac") or [])):
+                continue
+            n_loops += 1
+            src = {}
+            for x in walk(lp):
+                if x["k"] in ("LetStmt", "Let") and x.get("init") is not None:
+                    for b in walk(x["pat"]):
+                        if b["k"] == "P.Binding":
+                            src.setdefault(b.get("lid"), []).append(x["init"])
+                if x["k"] == "Match":
+                    for a in x["arms"]:
+                        for b in walk(a["pat"]):
+                            if b["k"] == "P.Binding":
+                                src.setdefault(b.get("lid"), []).append(x["scrut"])
+
+            def closure(e, seen=None, depth=0):
+                """expressions e is computed from, through the bindings made inside the loop"""
+                seen = seen if seen is not None else set()
+                out = [e]
+                for z in walk(e):
+                    if z["k"] == "Path" and z.get("res") == "local" and z.get("lid") in src and z["lid"] not in seen and depth < 8:
+                        seen.add(z["lid"])
+                        for e2 in src[z["lid"]]:
+                            out += closure(e2, seen, depth + 1)
+                return out
+
+            def lids(es):
+                return {z.get("lid") for e in es for z in walk(e) if z["k"] == "Path" and z.get("res") == "local"}
+            chase = None
+            for a in walk(lp):
+                if a["k"] != "Assign":
+                    continue
+                root = a["l"]
+                while root["k"] in ("Field", "Index", "Unary", "Deref"):
+                    root = root.get("e") or root.get("expr") or {}
+                    if not root:
+                        break
+                if not root or root.get("k") != "Path" or root.get("res") != "local":
+                    continue
+                X = root.get("lid")
+                feed = closure(a["r"])
+                for e in feed:
+                    for c in walk(e):
+                        if c["k"] == "MethodCall" and c.get("method") in ("get", "get_mut", "get_key_value") and "Map<" in (c["recv"].get("ty") or "") and c.get("args"):
+                            if X in lids(closure(c["args"][0])):
+                                chase = (a, c, root.get("name"))
+            if chase is None:
+                continue
+            n_chase += 1
+            a, c, xname = chase
+            records = [z for z in walk(lp) if z["k"] == "MethodCall" and z.get("method") == "insert" and re.search(r"Set<|Map<", z["recv"].get("ty") or "")]
+            fuel = False
+            counters = {z["l"].get("lid") for z in walk(lp) if z["k"] == "AssignOp" and z["l"].get("k") == "Path"}
+            for i_ in walk(lp):
+                if i_["k"] == "If" and any(z["k"] == "Path" and z.get("lid") in counters for z in walk(i_["cond"])):
+                    fuel = True
+            rep.ob(rid, "%s/%s" % (f.name, xname), bool(records) or fuel,
+                   "%s follows references in a loop - `%s` is re-assigned from a lookup (`%s.get(..)`) keyed by what `%s` holds - without recording the keys it has seen and without a fuel counter: a reference cycle (`type A = B; type B = A`, also across files) keeps the loop running forever, where the compiler owes a diagnostic" % (
+                       g, xname, (c["recv"].get("name") or "table"), xname),
+                   "%s:%s" % (f.file, lp["line"]), sample={"fn": f.name, "chased": xname, "records_visited": bool(records), "fuel": fuel})
+    rep.ob(rid, "scan", True, sample={"non_for_loops": n_loops, "reference_chases": n_chase})
+    rep.floor(rid, "reference-chasing loops (positive control: the addressed-type walk)", n_chase, 1)
 
 
 # ---------------------------------------------------------------------------------------------------- C04.10
